@@ -226,14 +226,17 @@ Proof.
 Qed.
 
 (** the value token of an option that awaits its single value *)
+Lemma is_value_terminator_check a v : is_value_terminator a v = check_terminator a v.
+Proof. reflexivity. Qed.
+
 Lemma eng_value v a r pi evaf :
   no_sub pc v -> is_escape v = false -> to_long v = None -> to_short v = None ->
-  a_num a = Some r -> r_accepts_more r 1 = false ->
+  a_num a = Some r -> r_accepts_more r 1 = false -> check_terminator a v = false ->
   shadow_step v cur pi false (Opt a 1) evaf = SNext cur pi false ValueDone evaf.
 Proof.
-  intros Hns He Hl Hs Hn Hacc. unfold shadow_step. cbn [negb]. rewrite (eng_no_sub pc cur v _ Hrel Hns).
+  intros Hns He Hl Hs Hn Hacc Ht. unfold shadow_step. cbn [negb]. rewrite (eng_no_sub pc cur v _ Hrel Hns).
   rewrite lex_is_escape, He, lex_to_long, Hl, lex_to_short, Hs.
-  unfold EngineModel.parse_opt_value. rewrite Hn. unfold r_accepts_more in Hacc. rewrite Hacc.
+  unfold EngineModel.parse_opt_value. rewrite is_value_terminator_check, Ht, Hn. unfold r_accepts_more in Hacc. rewrite Hacc.
   destruct (opt_allows_hyphen (Opt a 1) v); reflexivity.
 Qed.
 
